@@ -29,6 +29,8 @@ def _account_stream(stats, plan, tr):
         lay = streamsim.finalize(plan)
         if any(s['must_skip'] for s in lay['segs']):
             stats.probe('must_skip_demands', sum(1 for s in lay['segs'] if s['must_skip']))
+        if any(s['damaged'] and s['orig'].find(b'BUFR', 1) >= 0 for s in lay['segs']):
+            stats.probe('damaged_messages_holding_a_start_signature')
         if any(s.get('lands') for s in lay['segs']):
             stats.probe('length_damage_leading_onto_a_stop_signature_that_follows')
         if any('B' in it['cls'] for it in plan['items']):
